@@ -299,6 +299,20 @@ def r_index_of(c, v):
     return _conv(M.l_index_of(c, v)[0])
 
 
+def r_pretty_number(v, sep=' '):
+    """thousands grouping as the tests and the README examples show it: the sign is not a digit; what follows it is cut
+    into groups of three from the right (texts shorter than five characters are left alone)"""
+    s = str(v)
+    sign, body = ('-', s[1:]) if s.startswith('-') else ('', s)
+    if len(body) < 5:
+        return s
+    groups = []
+    while body:
+        groups.insert(0, body[-3:])
+        body = body[:-3]
+    return sign + sep.join(groups)
+
+
 REF = {
     'len': len, 'int': lambda v: D(int(v)), 'float': lambda v: D(float(v)), 'str': str, 'dict': dict, 'list': lambda *a: list(a),
     'startswith': lambda s, *a: s.startswith(*a), 'endswith': lambda s, *a: s.endswith(*a), 'lower': lambda s: s.lower(),
